@@ -233,7 +233,7 @@ def register(reg):
     @reg.contract
     class ResponseClosed(Contract):
         key = H11 + "._response_closed"
-        props = ("C01", "C05", "C09", "C17", "C06")
+        props = ("C01", "C05", "C09", "C17", "C06", "C08")
         modifies = ("H11._state", "H11._expire_at", "H.our", "H.their", "NS.open")
         raises = ["Cancelled"]
         call_raises = []
@@ -287,9 +287,21 @@ def register(reg):
             return []
 
         def on_field_write(self, c, obj, key, v, node):
+            lid = lock_id(c.new(c.self, "H11._state_lock"))
             if key == "H11._state":
-                lid = lock_id(c.new(c.self, "H11._state_lock"))
                 return [("state_written_under_state_lock", ("C08", "C01"), lid in c.st.held)]
+            if key == "H11._expire_at":
+                # C08 / C09: the gate clears the expiry under the state lock when it turns the connection ACTIVE; arming it
+                # outside the lock can arm it on a connection another thread has already taken (seed C08-w5-2)
+                return [("expiry_armed_under_the_state_lock", ("C08", "C09"), lid in c.st.held)]
+            return []
+
+        def callsite(self, c, ev):
+            if ev.name == "h11.start_next_cycle":
+                # the connection is published as IDLE only together with a recycled h11 state machine: both inside the region the
+                # gate of handle_request locks (another thread admitted in between finds h11 still DONE: LocalProtocolError)
+                lid = lock_id(c.new(c.self, "H11._state_lock"))
+                return [("h11_is_recycled_under_the_state_lock_that_publishes_idle", ("C08", "C01"), lid in c.st.held)]
             return []
 
     # ------------------------------------------------------------------ _send_event
@@ -850,6 +862,13 @@ def register(reg):
                     ("reads_body_for_own_request", ("C01", "C16"), r.t == F(c, c.self, "BS._request") if r is not None else False),
                 ]
             return []
+
+        def checks(self, c):
+            # C02 ("never a silently shorter body"): the iterator may end normally only because the connection's own body
+            # generator ended (EndOfMessage) - never because of a flag test of its own (seed C02-w5-2: `if self._closed: return`
+            # turned reading a closed response into an empty body)
+            ended = [e for e in c.trace if e.name == "iter.exhausted"]
+            return [("ends_normally_only_after_the_connections_body_generator_ended", ("C02", "C01"), len(ended) == 1)]
 
         def exc_checks(self, c, exc):
             calls = [e for e in c.trace if e.name == "call:" + BS + ".aclose"]
